@@ -52,14 +52,13 @@ def concretise(act, rnd, cls, typ):
     if a == "Null":
         return 0x80, 0x80
     if a == "Error":
-        v = rnd.randrange(4)
-        if v == 0:     # data pair, first byte damaged
-            return par(0x41) ^ 0x80, par(0x42)
-        if v == 1:     # data pair, second byte damaged
-            return par(0x41), par(0x42) ^ 0x80
-        if v == 2:     # header pair, type byte damaged
-            return par(1), par(0x10) ^ 0x80
-        return par(0x6A) ^ 0x80, par(0x30) ^ 0x80
+        b1, b2 = par(act["b1"]), par(act["b2"])
+        v = rnd.randrange(3)
+        if v == 0 or act["b2"] == 0 and v == 2:
+            return b1 ^ 0x80, b2
+        if v == 1:
+            return b1, b2 ^ 0x80
+        return b1 ^ 0x80, b2 ^ 0x80
     raise ValueError(a)
 
 
@@ -159,15 +158,12 @@ def transmit(rnd, nk, n_pairs):
                 acts.append(dict(a="Cont", k=k)); cur = k if k in pk else None      # missing start
             else:
                 n = rnd.choice(lens)
-                pk[k] = dict(sum=2 * CLS3[k - 1] + 1 + TYP3[k - 1], todo=[rnd.choice([0x41, 0x62, 0x7F, 0x21, 0x30]) for _ in range(n)])
+                pk[k] = dict(sum=2 * CLS3[k - 1] + 1 + TYP3[k - 1], todo=[rnd.choice([0x40, 0x40, 0x41, 0x62, 0x7F, 0x21, 0x30]) for _ in range(n)])
                 acts.append(dict(a="Start", k=k)); cur = k
         elif r < 0.12:
             acts.append(dict(a="Caption")); cur = None
         elif r < 0.16:
             acts.append(dict(a="Null"))
-        elif r < 0.175:
-            acts.append(dict(a="Error"))
-            pk.pop(cur, None); cur = None
         else:
             p = pk.get(cur)
             if p is None:
@@ -180,7 +176,14 @@ def transmit(rnd, nk, n_pairs):
                 else:
                     b2 = 0                      # half pair (also in the middle of a packet)
                 p["sum"] += b1 + b2
-                acts.append(dict(a="Data", b1=b1, b2=b2))
+                if rnd.random() < 0.02:
+                    # the pair is damaged on the way; the transmitter does not know and carries on,
+                    # sometimes with a continue pair (as after an interruption)
+                    acts.append(dict(a="Error", b1=b1, b2=b2))
+                    if rnd.random() < 0.6:
+                        acts.append(dict(a="Cont", k=cur))
+                else:
+                    acts.append(dict(a="Data", b1=b1, b2=b2))
             else:
                 c = (-(p["sum"] + 0x0F)) % 128
                 if rnd.random() < 0.08:
